@@ -293,6 +293,44 @@ def task_integrate(p, cells, variant):
 task_integrate.contract_fn = "calculus.Integrate.scalar"
 
 
+# --------------------------------------------------------------------------------------
+# engine B: the integral formula with VECTOR-valued control points (numpy arrays): sum_i P_i (u_(i+p+1) - u_i) / (p + 1) holds coordinate by coordinate, for every method (D41)
+# --------------------------------------------------------------------------------------
+def task_vector_integral():
+    from ..report import FAILED, PROVED, ob
+    import numpy as np
+    fn = "calculus.Integrate.scalar"
+    out = []
+    cases = {"p0": [F(0), F(1), F(3)], "p1": [F(0), F(0), F(1, 2), F(2), F(2)], "p2-double": [F(-1)] * 3 + [F(0), F(0), F(3)] + [F(4)] * 3, "p3-bezier": [F(0)] * 4 + [F(5, 2)] * 4}
+    for name, U in cases.items():
+        p = U.count(U[0]) - 1
+        n = len(U) - p - 1
+        P = [np.array([F((-1) ** i * (i + 1), 2), F(i * i, 3) - 1, F(3 - i)], dtype=object) for i in range(n)]
+        want = [sum(P[i][d] * (U[i + p + 1] - U[i]) for i in range(n)) / (p + 1) for d in range(3)]
+        for method in (None, "open-newton-cotes", "closed-newton-cotes", "chebyshev", "gauss-legendre"):
+            if method == "closed-newton-cotes" and p == 0:
+                continue        # the closed rule needs two nodes; the default size for degree 0 is one
+            bad = None
+            try:
+                C = curves.Curve(list(U), [q.copy() for q in P])
+                got = calculus.Integrate.scalar(C, None, method) if method else calculus.Integrate.scalar(C)
+                if np.shape(got) != (3,):
+                    bad = "result of shape %s, expected a 3-vector" % (np.shape(got),)
+                elif method in (None, "open-newton-cotes", "closed-newton-cotes"):
+                    if [F(x) for x in got] != want:
+                        bad = "integral %s, expected exactly %s" % ([str(x) for x in got], [str(x) for x in want])
+                elif any(abs(float(x) - float(y)) > 1e-9 * max(1.0, abs(float(y))) for x, y in zip(got, want)):
+                    bad = "integral %s, expected %s" % ([float(x) for x in got], [float(x) for x in want])
+            except Exception as e:
+                bad = "%s: %s" % (type(e).__name__, str(e)[:100])
+            out.append(ob("%s:vector-points[%s,%s]" % (fn, name, method or "default"), fn, FAILED if bad else PROVED, "B", "concrete", 0.0,
+                          bad or "the integral formula holds in every coordinate", dict(kind="c10.vector", case=name, method=method) if bad else None, {"method": method or "default"}))
+    return out + [{"_stats": dict(cases=len(out))}]
+
+
+task_vector_integral.contract_fn = "calculus.Integrate.scalar"
+
+
 def task_length():
     """Integrate.lenght of a polyline = sum of segment lengths (needs sqrt: concrete 3-4-5 polylines, bounded stand-in)."""
     fn = "calculus.Integrate.lenght"
@@ -401,7 +439,7 @@ def tasks(tier, seed):
     ts = [(verify, (misc.CLOSED_LINSPACE, "heavy", "NodeSample.closed_linspace", None)),
           (verify, (misc.OPEN_LINSPACE, "heavy", "NodeSample.open_linspace", None)),
           (verify, (misc.FACTORIAL, "heavy", "Math.factorial", None)), (verify, (misc.COMB, "heavy", "Math.comb", None)),
-          (task_memo_frames, ()), (task_orders, (nmax,)), (task_length, ()), (task_integrate_orders, ())]
+          (task_memo_frames, ()), (task_orders, (nmax,)), (task_length, ()), (task_integrate_orders, ()), (task_vector_integral, ())]
     for name in FAMILIES:
         ts.append((task_rules, (name, nmax)))
     for p, cells in shapes(tier):
@@ -431,6 +469,9 @@ def replay(o):
         diff = [k for k in a if a[k] != b[k]]
         return bool(diff), "the same rule whichever of nodes / weights is requested first (fresh interpreters)", \
             dict(differs=diff[:4], nodes_first={k: a[k] for k in diff[:2]}, weights_first={k: b[k] for k in diff[:2]})
+    if w["kind"] == "c10.vector":
+        r = [x for x in task_vector_integral() if "id" in x and x["id"].endswith("[%s,%s]" % (w["case"], w["method"] or "default"))][0]
+        return r["status"] == "failed", "the integral formula in every coordinate", r["detail"]
     if w["kind"] == "c10.integrate":
         p, cells, variant = w["p"], tuple(w["cells"]), w["variant"]
         U = vec(p, cells, variant)
